@@ -46,13 +46,16 @@ theorem published_is_state (s : St) (o : Op) :
 
 /-- **retire_guard**: if `retire` (or `web_retire`) is accepted after any history, then the
 node was working or retiring, *every* hosted service had answered the support query with
-"ok" earlier in the history, every hosted service is sent `retire` in that very step, and
-the node publishes and enters `retiring`. -/
+exactly "ok" earlier in the history, the node publishes and enters `retiring`, and in that
+very step `retire` is sent to every hosted service the node can resolve at that moment
+(`INodeApp.GetService` ≠ nil; the fan-out of the code is best effort: a service that is
+unresolvable right then is skipped silently — see `retire_skips_unresolvable`). -/
 theorem retire_guard (kinds : List Kind) (ops : List Op) (mode : StopMode) (c : Cmd) (hc : c = .retire ∨ c = .webRetire)
     (hok : Evt.reply .ok ∈ (step true (exec true kinds ops mode).1 (.cmd c)).2) :
     ((exec true kinds ops mode).1.st = .working ∨ (exec true kinds ops mode).1.st = .retiring) ∧
     (∀ i, i < kinds.length → Op.qack i true ∈ history kinds ops) ∧
-    (∀ i, i < kinds.length → Evt.send i .retire ∈ (step true (exec true kinds ops mode).1 (.cmd c)).2) ∧
+    (∀ i, i < kinds.length → i ∉ (exec true kinds ops mode).1.unres →
+      Evt.send i .retire ∈ (step true (exec true kinds ops mode).1 (.cmd c)).2) ∧
     Evt.pub .retiring ∈ (step true (exec true kinds ops mode).1 (.cmd c)).2 ∧
     (step true (exec true kinds ops mode).1 (.cmd c)).1.st = .retiring := by
   have inv := RInv.exec kinds ops mode
@@ -60,7 +63,8 @@ theorem retire_guard (kinds : List Kind) (ops : List Op) (mode : StopMode) (c : 
   generalize (exec true kinds ops mode).1 = s at *
   have key : ∀ r : St × List Evt, r = retireCmd s → Evt.reply .ok ∈ r.2 →
       (s.st = .working ∨ s.st = .retiring) ∧ (∀ i, i < kinds.length → Op.qack i true ∈ history kinds ops) ∧
-      (∀ i, i < kinds.length → Evt.send i .retire ∈ r.2) ∧ Evt.pub .retiring ∈ r.2 ∧ r.1.st = .retiring := by
+      (∀ i, i < kinds.length → i ∉ s.unres → Evt.send i .retire ∈ r.2) ∧
+      Evt.pub .retiring ∈ r.2 ∧ r.1.st = .retiring := by
     intro r hr hmem
     subst hr
     unfold retireCmd at hmem ⊢
@@ -73,14 +77,22 @@ theorem retire_guard (kinds : List Kind) (ops : List Op) (mode : StopMode) (c : 
         have hall := inv.sup_all hsup
         rw [hk] at hall
         rw [if_neg h1, if_neg h2]
-        refine ⟨?_, fun i hi => inv.sup_decl i (hall i hi), fun i hi => ?_, by simp, rfl⟩
+        refine ⟨?_, fun i hi => inv.sup_decl i (hall i hi), fun i hi hu => ?_, by simp, rfl⟩
         · cases hst : s.st <;> simp_all
-        · have hr := inv.reach i (Or.inr (hall i hi))
-          have := mem_tellAll .retire s.kinds i (by rw [hk]; exact hi) hr
+        · have := mem_tellAll .retire s.kinds.length s.unres i (by rw [hk]; exact hi) hu
           simp [this]
   rcases hc with rfl | rfl
   · exact key _ rfl hok
   · exact key _ rfl hok
+
+/-- the fan-out is best effort: with a supporting service that the node cannot resolve at that
+moment, `retire` is still accepted, the node goes `retiring`, and that service is not told
+(a later `retire`, accepted again while retiring, reaches it once it is resolvable) -/
+theorem retire_skips_unresolvable :
+    let s := (exec true [.raw, .raw] [.qack 0 true, .qack 1 true, .setRes 1 false]).1
+    (step true s (.cmd .retire)).2 = [.pub .retiring, .send 0 .retire, .reply .ok] ∧
+    (step true (step true (step true s (.cmd .retire)).1 (.setRes 1 true)).1 (.cmd .retire)).2 =
+      [.pub .retiring, .send 0 .retire, .send 1 .retire, .reply .ok] := by decide
 
 /-! ## retired -/
 
